@@ -628,6 +628,114 @@ def rule_strings_by_evaluation(ctx, rep: Report, rid="K15"):
     rep.units["string_converters_evaluated"] = sorted(v)
 
 
+SCALAR_BOUNDS = [0, 1, 2, 5, 65, 127, 128, 200, 255, 256, 32767, 32768, 65535, 2 ** 31 - 1, 2 ** 31, 2 ** 32 - 1, 2 ** 32 + 7, 2 ** 53, 2 ** 53 + 1,
+                 2 ** 63 - 1, 2 ** 63, 2 ** 64 - 1, -1, -2, -128, -129, -32768, -2 ** 31, -2 ** 31 - 1, -2 ** 53 - 1, -2 ** 63]
+
+
+def _fits(v, spec) -> bool:
+    from .cinterp import c_convert
+    if spec[1] == "f":
+        return isinstance(v, float) or float(v) == v and int(float(v)) == v
+    if isinstance(v, float):
+        return v == int(v) and c_convert(int(v), spec) == int(v)
+    return c_convert(v, spec) == (bool(v) if spec[1] == "b" else v) and (spec[1] != "b" or v in (0, 1))
+
+
+def scalar_converter_verdict(h) -> Optional[Dict[str, List[str]]]:
+    """Every scalar wrap<T> / unwrap<T> pair run (own interpreter, LP64 little-endian byte model: arrays are byte strings, a store
+    through `(X*)mxGetData(..)` writes sizeof(X) bytes, mxCreateNumeric* zero-initialises, mxGetScalar converts the first element
+    to double, C++ arithmetic conversions wrap / truncate as the standard says) on the boundary values of T:
+    'roundtrip' - unwrap<T>(wrap<T>(v)) is v and nothing outside the created array is touched;
+    'read'      - a MATLAB array of any numeric or logical class holding a value T can represent arrives as that value
+                  (2^53+1 in an int64 array is not read through a double).
+    Returns the differences per part, or None where the interpreter cannot follow."""
+    from .cinterp import MX_CLASSES, CError, CUnknown, MxArray, c_convert, c_type, run_function
+    w, u = h.specialisations("wrap"), h.specialisations("unwrap")
+    out: Dict[str, List[str]] = {"roundtrip": [], "read": []}
+    n_rt = n_rd = 0
+    try:
+        for t in sorted(set(w) & set(u)):
+            spec = c_type(t)
+            if spec is None:
+                continue
+            fw, fu = w[t], u[t]
+            pw = [p.get("name") for p in fw.get("inner", []) if p.get("kind") == "ParmVarDecl"]
+            pu = [p.get("name") for p in fu.get("inner", []) if p.get("kind") == "ParmVarDecl"]
+            if len(pw) != 1 or len(pu) != 1:
+                return None
+            values = [v for v in SCALAR_BOUNDS + [2.5, -0.75, 1e300] if _fits(v, spec)]
+            for v in values:
+                v = c_convert(v, spec)
+                arr, m1 = run_function(fw, {pw[0]: v}, typed=True, header=h)
+                if not isinstance(arr, MxArray) or arr.raw is None:
+                    raise CUnknown("wrap does not give a numeric array")
+                n_rt += 1
+                if arr.dims != [1, 1]:
+                    out["roundtrip"].append(f"wrap<{t}>({v}) gives a {'x'.join(map(str, arr.dims))} array")
+                    continue
+                if arr.oob:
+                    out["roundtrip"].append(f"wrap<{t}>({v}): {arr.oob[0]} ({arr.cls})")
+                    continue
+                try:
+                    back, m2 = run_function(fu, {pu[0]: arr}, typed=True, header=h)
+                except CError:
+                    out["roundtrip"].append(f"unwrap<{t}> refuses what wrap<{t}>({v}) made")
+                    continue
+                if back != v or isinstance(back, bool) != isinstance(v, bool) and spec[1] == "b":
+                    out["roundtrip"].append(f"{t} {v} comes back as {back} (through a {arr.cls} array holding bytes {bytes(arr.raw).hex()})")
+            for cls, cspec in sorted(MX_CLASSES.items()):
+                if cls in ("mxCHAR_CLASS", "mxSINGLE_CLASS"):
+                    continue
+                for v in SCALAR_BOUNDS + [2.5]:
+                    if not (_fits(v, cspec) and _fits(v, spec)):
+                        continue
+                    stored = float(v) if cspec[1] == "f" else (bool(v) if cspec[1] == "b" else v)
+                    want = c_convert(v, spec)
+                    arr = MxArray.numeric(cls, [stored], dims=[1, 1])
+                    n_rd += 1
+                    try:
+                        back, m2 = run_function(fu, {pu[0]: arr}, typed=True, header=h)
+                    except CError:
+                        out["read"].append(f"unwrap<{t}> refuses a 1x1 {cls} array holding {v}")
+                        continue
+                    if arr.oob:
+                        out["read"].append(f"unwrap<{t}> of a {cls} array: {arr.oob[0]}")
+                    elif back != want:
+                        out["read"].append(f"unwrap<{t}> of a {cls} array holding {v} gives {back}")
+    except (CUnknown, KeyError, IndexError, TypeError, ValueError, OverflowError) as e:
+        return None
+    out["_counts"] = [str(n_rt), str(n_rd)]
+    return out
+
+
+def scalar_verdict(ctx):
+    return ctx._get("scalar_verdict", lambda: scalar_converter_verdict(header(ctx)))
+
+
+def rule_scalars_by_evaluation(ctx, rep: Report, rid="K16"):
+    """Scalars round-trip and MATLAB values arrive exactly - decided by running the scalar converters on boundary values in a
+    byte-level model of the arrays (see scalar_converter_verdict).  The model is LP64 and little-endian; that is an assumption
+    about the platform, stated in the evidence, not a fact about the header."""
+    h = header(ctx)
+    v = scalar_verdict(ctx)
+    loc = hloc(next(iter(h.specialisations("unwrap").values())))
+    if v is None:
+        rep.add(rid, "scalar converters:by evaluation", True, "not decided: written with constructs the interpreter does not know; K2, K3, K14 decide by structure",
+                loc, nontrivial=False)
+        rep.units["scalar_round_trips_evaluated"] = 0
+        return
+    n_rt, n_rd = (int(x) for x in v["_counts"])
+    rep.units["scalar_round_trips_evaluated"] = n_rt
+    rep.units["scalar_reads_evaluated"] = n_rd
+    rep.add(rid, "scalar converters:unwrap<T>(wrap<T>(v)) is v for the boundary values of every scalar type", not v["roundtrip"],
+            f"{v['roundtrip'][:4]}: the value a C++ function returns is not the value MATLAB hands to the next call (a store wider than the array it was "
+            f"created with writes outside it)", loc)
+    rep.add(rid, "scalar converters:a MATLAB scalar of any numeric or logical class arrives as its value", not v["read"],
+            f"{v['read'][:4]}: the routine is called with another number than the caller passed (a 64-bit key read through a double loses its low bits)", loc)
+    if n_rt < 40 or n_rd < 150:
+        raise AnalysisError(f"{rep.prop}/{rid}: only {n_rt} round trips / {n_rd} reads evaluated")
+
+
 def rule_loop_shapes(ctx, rep: Report, rid="K5"):
     h = header(ctx)
     wm = h.functions("wrap_Matrix")
